@@ -17,10 +17,12 @@ structure Inv (lines : List (List Char)) (s : PState) : Prop where
   errs : ∀ d ∈ s.errors, AnchoredD lines d
   mods : ∀ m ∈ s.modifications, AnchoredQ lines m.1
   bonds : ∀ b ∈ s.bonds, AnchoredQ lines b.1
+  seqres : ∀ l ∈ s.seqresLines, AnchoredQ lines l
 
 theorem flushModel_frame (s : PState) :
-    (flushModel s).modifications = s.modifications ∧ (flushModel s).bonds = s.bonds ∧ (flushModel s).errors = s.errors := by
-  unfold flushModel; split <;> exact ⟨rfl, rfl, rfl⟩
+    (flushModel s).modifications = s.modifications ∧ (flushModel s).bonds = s.bonds ∧ (flushModel s).errors = s.errors ∧
+    (flushModel s).seqresLines = s.seqresLines := by
+  unfold flushModel; split <;> exact ⟨rfl, rfl, rfl, rfl⟩
 
 theorem attachLine_anchored (lines : List (List Char)) (ln : Nat) (line : List Char) (ds : List LDiag)
     (h : AnchoredQ lines (ln, line)) : ∀ d ∈ attachLine ln line ds, AnchoredD lines d := by
@@ -54,9 +56,10 @@ theorem lexLine_anchored (lines : List (List Char)) (ln : Nat) (line : List Char
 /-- `stepItem` records a MODRES / SSBOND context only for the current line -/
 theorem stepItem_frame (o : ReadOpts) (s : PState) (ctx : Nat × List Char) (item : LexItem) :
     (∀ m ∈ (stepItem o s ctx item).1.modifications, m ∈ s.modifications ∨ m.1 = ctx) ∧
-    (∀ b ∈ (stepItem o s ctx item).1.bonds, b ∈ s.bonds ∨ b.1 = ctx) := by
+    (∀ b ∈ (stepItem o s ctx item).1.bonds, b ∈ s.bonds ∨ b.1 = ctx) ∧
+    (∀ l ∈ (stepItem o s ctx item).1.seqresLines, l ∈ s.seqresLines ∨ l = ctx) := by
   have hf := flushModel_frame s
-  refine ⟨?_, ?_⟩ <;> intro m hm <;> cases item <;> simp only [stepItem] at hm <;> (repeat' split at hm) <;>
+  refine ⟨?_, ?_, ?_⟩ <;> intro m hm <;> cases item <;> simp only [stepItem] at hm <;> (repeat' split at hm) <;>
     simp_all [flushModel_frame] <;>
     (first
       | done
@@ -72,15 +75,15 @@ theorem stepLine_inv (lines : List (List Char)) (o : ReadOpts) (s : PState) (ln 
   · obtain ⟨hle, hlo⟩ := lexLine_anchored lines ln line o.level o.onlyAtomicCoords h
     split
     · rename_i e he
-      refine ⟨?_, hi.mods, hi.bonds⟩
+      refine ⟨?_, hi.mods, hi.bonds, hi.seqres⟩
       intro d hd
       simp only [List.mem_append, List.mem_singleton] at hd
       rcases hd with hd | rfl
       · exact hi.errs d hd
       · exact hle _ he
     · rename_i item errs he
-      obtain ⟨hm, hb⟩ := stepItem_frame o { s with errors := [] } (ln, line) item
-      refine ⟨?_, ?_, ?_⟩
+      obtain ⟨hm, hb, hsq⟩ := stepItem_frame o { s with errors := [] } (ln, line) item
+      refine ⟨?_, ?_, ?_, ?_⟩
       · intro d hd
         simp only [List.mem_append] at hd
         rcases hd with (hd | hd) | hd
@@ -94,6 +97,10 @@ theorem stepLine_inv (lines : List (List Char)) (o : ReadOpts) (s : PState) (ln 
       · intro b hbb
         rcases hb b hbb with h1 | h1
         · exact hi.bonds b h1
+        · rw [h1]; exact h
+      · intro l hl
+        rcases hsq l hl with h1 | h1
+        · exact hi.seqres l h1
         · rw [h1]; exact h
 
 theorem foldl_inv {σ α} (P : σ → Prop) (f : σ → α → σ) (l : List α) (Q : α → Prop)
@@ -181,15 +188,109 @@ theorem foldl_no_quote {α β} (f : β × List PDiag → α → β × List PDiag
   | nil => exact h0
   | cons x xs ih => exact ih _ (hstep _ _ h0)
 
+/-! ### the SEQRES checks -/
+
+theorem seqStep_no_quote (st : SeqSt) (index : Int) (seq : List Char) (pos : Nat × Nat)
+    (h : ∀ d ∈ st.errs, d.quoted = []) : ∀ d ∈ (seqStep st index seq pos).errs, d.quoted = [] := by
+  unfold seqStep
+  simp only
+  intro d hd
+  repeat' split at hd
+  all_goals
+    simp only [List.mem_append, List.mem_singleton] at hd
+    first
+      | exact h d hd
+      | (rcases hd with hd | rfl
+         · first | exact h d hd | (rcases hd with hd | rfl; exact h d hd; rfl)
+         · rfl)
+
+/-- what a mismatch diagnostic quotes are SEQRES lines under the numbers they were lexed from -/
+theorem seqresQuoted_sub (ls : List (Nat × List Char)) (c : Char) (incons : List (Nat × Nat × String)) :
+    ∀ q ∈ seqresQuoted ls c incons, q ∈ ls := by
+  intro q hq
+  unfold seqresQuoted at hq
+  simp only at hq
+  exact (List.mem_filter.mp (List.mem_of_mem_take (List.mem_of_mem_drop hq))).1
+
+theorem mem_ite_nil_right {α} {c : Prop} [Decidable c] {x d : α} (h : d ∈ (if c then [x] else [])) : d = x := by
+  split at h
+  · simpa using h
+  · cases h
+theorem mem_ite_nil_left {α} {c : Prop} [Decidable c] {x d : α} (h : d ∈ (if c then [] else [x])) : d = x := by
+  split at h
+  · cases h
+  · simpa using h
+
+theorem seqresRecords_no_quote (data : List (Nat × Nat × List (List Char))) :
+    ∀ d ∈ (seqresRecords data).1, d.quoted = [] := by
+  unfold seqresRecords
+  apply foldl_inv (fun acc : List PDiag × Nat × Nat => ∀ d ∈ acc.1, d.quoted = []) _ data (fun _ => True) (fun _ _ => trivial)
+  · intro acc x _ hacc
+    obtain ⟨errs, serial, residues⟩ := acc
+    simp only at hacc ⊢
+    intro d hd
+    repeat' split at hd
+    all_goals
+      simp only [List.mem_append, List.mem_singleton] at hd
+      first
+        | exact hacc d hd
+        | (rcases hd with hd | rfl
+           · first | exact hacc d hd | (rcases hd with hd | rfl; exact hacc d hd; rfl)
+           · rfl)
+  · intro d hd; cases hd
+
+theorem seqresWalk_no_quote (ch : Chain) (offset : Int) (names : List (List Char × Nat × Nat)) :
+    ∀ d ∈ (seqresWalk ch offset names).errs, d.quoted = [] := by
+  unfold seqresWalk
+  apply foldl_inv (fun st : SeqSt => ∀ d ∈ st.errs, d.quoted = []) _ _ (fun _ => True) (fun _ _ => trivial)
+  · intro st x _ hst
+    exact seqStep_no_quote st _ _ _ hst
+  · intro d hd; cases hd
+
+theorem validateSeqresChain_anchored (lines : List (List Char)) (ch : Chain) (db : Option DbRef) (cid : Char)
+    (data : List (Nat × Nat × List (List Char))) (ls : List (Nat × List Char)) (h : ∀ l ∈ ls, AnchoredQ lines l) :
+    ∀ d ∈ (validateSeqresChain ch db cid data ls).2, AnchoredD lines d := by
+  intro d hd
+  unfold validateSeqresChain at hd
+  simp only [List.mem_append] at hd
+  rcases hd with ((((hd | hd) | hd) | hd) | hd) | hd
+  · exact anchored_of_no_quote lines d (seqresRecords_no_quote data d hd)
+  · exact anchored_of_no_quote lines d (by rw [mem_ite_nil_right hd])
+  · refine anchored_of_no_quote lines d ?_
+    unfold seqresDbTotal at hd
+    split at hd
+    · cases hd
+    · rw [mem_ite_nil_right hd]
+  · exact anchored_of_no_quote lines d (seqresWalk_no_quote _ _ _ d hd)
+  · rw [mem_ite_nil_left hd]
+    intro q hq
+    exact h q (seqresQuoted_sub ls cid _ q hq)
+  · exact anchored_of_no_quote lines d (by rw [mem_ite_nil_right hd])
+
+theorem validateSeqres_anchored (lines : List (List Char)) (p : PDB) (dbrefs : List (Nat × DbRef))
+    (seqres : List (Char × List (Nat × Nat × List (List Char)))) (ls : List (Nat × List Char))
+    (h : ∀ l ∈ ls, AnchoredQ lines l) : ∀ d ∈ (validateSeqres p dbrefs seqres ls).2, AnchoredD lines d := by
+  unfold validateSeqres
+  apply foldl_inv (fun acc : PDB × List PDiag => ∀ d ∈ acc.2, AnchoredD lines d) _ _ (fun _ => True) (fun _ _ => trivial)
+  · intro acc cd _ hacc
+    split
+    · exact hacc
+    · split
+      · exact hacc
+      · intro d hd
+        simp only [List.mem_append] at hd
+        rcases hd with hd | hd
+        · exact hacc d hd
+        · exact validateSeqresChain_anchored lines _ _ _ _ ls h d hd
+  · intro d hd; cases hd
+
 /-- Every diagnostic the reader returns — with a structure or as a rejection list — that is anchored to lines
 quotes, for each quoted line, the text that stands at the reported line number of the input. -/
 theorem C05_context_lines (o : ReadOpts) (lines : List (List Char)) (f : PdbFile) (ds : List PDiag)
-    (h : readPdbCore o lines = some (f, ds)) : ∀ d ∈ ds, AnchoredD lines d := by
+    (h : readPdbCore o lines = (f, ds)) : ∀ d ∈ ds, AnchoredD lines d := by
   unfold readPdbCore at h
   simp only at h
-  split at h
-  · cases h
-  · simp only [Option.some.injEq, Prod.mk.injEq] at h
+  · simp only [Prod.mk.injEq] at h
     obtain ⟨_, rfl⟩ := h
     -- the invariant after the fold over the lines
     have hinv : Inv lines (((List.range lines.length).zip lines).foldl
@@ -198,18 +299,18 @@ theorem C05_context_lines (o : ReadOpts) (lines : List (List Char)) (f : PdbFile
       · intro il hil; exact mem_zip_range lines il.1 il.2 hil
       · intro s il hq hs
         exact stepLine_inv lines o s (il.1 + 1) il.2 ⟨by omega, by simpa using hq⟩ hs
-      · exact ⟨fun d hd => (by cases hd), fun d hd => (by cases hd), fun d hd => (by cases hd)⟩
+      · exact ⟨fun d hd => (by cases hd), fun d hd => (by cases hd), fun d hd => (by cases hd), fun d hd => (by cases hd)⟩
     have hfl := flushModel_frame (((List.range lines.length).zip lines).foldl
         (fun s (il : Nat × List Char) => stepLine o s (il.1 + 1) il.2) ({} : PState))
     intro d hd
     simp only [List.mem_append] at hd
-    rcases hd with ((hd | hd) | hd) | hd
+    rcases hd with (((hd | hd) | hd) | hd) | hd
     · -- merged reader diagnostics
       refine mergeRemarkWarnings_anchored lines _ ?_ d hd
       intro e he
       simp only [List.mem_append] at he
       rcases he with (((he | he) | he) | he) | he
-      · rw [hfl.2.2] at he; exact hinv.errs e he
+      · rw [hfl.2.2.1] at he; exact hinv.errs e he
       · refine anchored_of_no_quote lines e (foldl_no_quote _ _ _ (fun _ hx => (by cases hx)) ?_ e he)
         intro acc x hacc d' hd'
         split at hd'
@@ -238,6 +339,9 @@ theorem C05_context_lines (o : ReadOpts) (lines : List (List Char)) (f : PdbFile
           rcases hd' with hd' | rfl
           · exact hacc d' hd'
           · rfl
+    · -- the SEQRES checks
+      refine validateSeqres_anchored lines _ _ _ _ ?_ d hd
+      intro l hl; rw [hfl.2.2.2] at hl; exact hinv.seqres l hl
     · refine addModifications_anchored lines _ _ ?_ d hd
       intro m hm; rw [hfl.1] at hm; exact hinv.mods m hm
     · refine addBonds_anchored lines _ _ ?_ d hd
